@@ -32,6 +32,8 @@ impl IndexCatalog {
                 let mut buf = [0u8; PAGE_SIZE];
                 init_empty_catalog_page(&mut buf);
                 pager.write_page(p, &buf)?;
+                // Write barrier: the page must be durable before the meta page points to it.
+                pager.sync()?;
                 pager.set_index_catalog_root(Some(p))?;
                 p
             }
@@ -62,6 +64,8 @@ impl IndexCatalog {
 
         let id = pager.allocate_index_id()?;
         let tree = BTree::create(pager)?;
+        // Write barrier: the new root page must be durable before the catalog refers to it.
+        pager.sync()?;
         let def = IndexDef {
             id,
             root: tree.root(),
